@@ -531,7 +531,64 @@ func Forall(bound []*Term, body *Term, pats ...*Term) *Term {
 	if !body.hasBV {
 		return body
 	}
+	// flatten directly nested universal quantifiers (the inner trigger covers all variables)
+	if body.Kind == KQuant && body.Op == "forall" && len(pats) == 0 {
+		return TC.mk(KQuant, "forall", SBool, body.Args, append(append([]*Term{}, bound...), body.Bound...), body.Pats)
+	}
 	return TC.mk(KQuant, "forall", SBool, []*Term{body}, bound, pats)
+}
+
+// GlobalAxioms are added to a query only when one of their function symbols occurs in it.
+type GlobalAxiom struct {
+	Name string
+	T    *Term
+	Funs map[string]bool
+}
+
+var GlobalAxioms []*GlobalAxiom
+
+func termFuns(t *Term, out map[string]bool, seen map[*Term]bool) {
+	if seen[t] {
+		return
+	}
+	seen[t] = true
+	if t.Kind == KApp {
+		out[t.Op] = true
+	}
+	for _, a := range t.Args {
+		termFuns(a, out, seen)
+	}
+}
+
+func relevantAxioms(roots []*Term) []*Term {
+	used := map[string]bool{}
+	seen := map[*Term]bool{}
+	for _, r := range roots {
+		termFuns(r, used, seen)
+	}
+	var out []*Term
+	added := map[*GlobalAxiom]bool{}
+	for changed := true; changed; {
+		changed = false
+		for _, ax := range GlobalAxioms {
+			if added[ax] {
+				continue
+			}
+			hit := false
+			for f := range ax.Funs {
+				if used[f] && strings.HasPrefix(f, "spec.") {
+					hit = true
+				}
+			}
+			if hit {
+				added[ax] = true
+				out = append(out, ax.T)
+				termFuns(ax.T, used, seen)
+				changed = true
+			}
+		}
+	}
+	return out
 }
 
 func Exists(bound []*Term, body *Term) *Term {
@@ -769,6 +826,7 @@ func (q *Query) Render(getModel bool, modelTerms []*Term) string {
 		negGoal = Not(q.Goal)
 		roots = append(roots, negGoal)
 	}
+	roots = append(roots, relevantAxioms(roots)...)
 	// theory instantiation for strings etc.
 	roots = append(roots, theoryAxioms(roots)...)
 	c := newCollector()
